@@ -29,10 +29,23 @@ type fakeChain struct {
 	ctr     uint64
 	answers map[chainhash.Hash]string // txid -> answer spec ("" / "ok" = accept)
 	sendLog []chainhash.Hash
+	// calls: one entry per SendRawTransaction call, in call order: the raw transaction the wallet handed over and the
+	// answer spec it got (the backend's own record; the oracles of C06/C20 go by this, not by what the wallet returned)
+	calls []sendCall
+	// hold: while non-nil every SendRawTransaction call blocks (after being logged) until the channel is closed;
+	// waiting counts the callers blocked right now
+	hold    chan struct{}
+	waiting int
 	// notifyFailIn: when non-empty, NotifyReceived fails if a function whose name contains this string is on the stack
 	notifyFailIn string
 	rescans      int
 	delivered    int // RescanFinished notifications taken by the wallet
+}
+
+type sendCall struct {
+	hash chainhash.Hash
+	tx   *wire.MsgTx
+	spec string
 }
 
 var t0 = time.Unix(1700000000, 0)
@@ -179,7 +192,21 @@ func (f *fakeChain) SendRawTransaction(tx *wire.MsgTx, _ bool) (*chainhash.Hash,
 	if !ok {
 		spec = f.answers[chainhash.Hash{}]
 	}
+	f.calls = append(f.calls, sendCall{hash: h, tx: tx.Copy(), spec: spec})
+	hold := f.hold
+	if hold != nil {
+		f.waiting++
+	}
 	f.mu.Unlock()
+	if hold != nil {
+		select {
+		case <-hold:
+		case <-f.quit:
+		}
+		f.mu.Lock()
+		f.waiting--
+		f.mu.Unlock()
+	}
 	if err := mapAnswer(spec); err != nil {
 		return nil, err
 	}
